@@ -88,7 +88,8 @@ def shrink_disagreement(prop, case, select, max_rounds=14):
             if not epflow.impl_inputs_ok(cand):
                 continue
             epflow.run_model([cand], prop)
-            if epflow.compare_case(cand, select):
+            cb = epflow.compare_case(cand, select)
+            if cb and not epflow.model_missing(cb):
                 lines = cand_lines
                 best = cand
                 changed = True
@@ -135,8 +136,9 @@ def run(prop, tier, seed, theorems, select, oracle, nontrivial, gen_force=None, 
     cases = corpus_cases(prop) + gen_fn(rng, n_model)
     epflow.run_impl(cases)
     errs = epflow.run_model(cases, prop)
-    for e in errs:
-        R.harness_errors.append(e)
+    # a shard that hit its time limit is not an error by itself: its unfinished cases are evaluated again below, one by one, and only
+    # a case that still has no answer then is reported
+    first_pass_errs = list(errs)
     tags = Counter()
     seen = set()
     disagree = []
@@ -146,6 +148,16 @@ def run(prop, tier, seed, theorems, select, oracle, nontrivial, gen_force=None, 
             continue
         R.evaluations += len(c.evals)
         bad = epflow.compare_case(c, select)
+        if epflow.model_missing(bad):
+            # evaluate the model again for this case alone before concluding anything
+            epflow.run_model([c], prop)
+            bad = epflow.compare_case(c, select)
+        if epflow.model_missing(bad):
+            tags["model_evaluation_incomplete"] += 1
+            R.harness_errors.append("case %s: the model's evaluation did not complete (time limit); case skipped" % c.cid)
+            R.harness_errors.extend(first_pass_errs[:3])
+            first_pass_errs = []
+            continue
         if bad:
             disagree.append((c, bad))
         else:
@@ -153,12 +165,14 @@ def run(prop, tier, seed, theorems, select, oracle, nontrivial, gen_force=None, 
         for t in c.tags:
             tags[t] += 1
     R.stats["model_vs_impl"] = {"cases": len(cases), "agree": R.cases_validated, "disagree": len(disagree),
-                                "tags": dict(tags)}
+                                "tags": dict(tags), "model_shards_cut_short_then_retried": len(errs)}
     for c, bad in disagree[:10]:
         if disagreement_is_violation and ok and len(R.violations) < 2:
             # the model is proved equal to the specification: a disagreement is a counter-example to the property
             small = shrink_disagreement(prop, c, select)
-            sbad = epflow.compare_case(small, select) or bad
+            sbad = epflow.compare_case(small, select)
+            if not sbad or epflow.model_missing(sbad):
+                small, sbad = c, bad
             payload = small.replay()
             payload.update({"what": "implementation differs from the EN ISO 52000-1 equations (Coq model = specification)",
                             "disagreements": sbad[:12],
